@@ -25,6 +25,10 @@ def cout(o):
         v = cspec(body['value'])
     elif 'bool' in body:
         v = f'(VBool {cbool(body["bool"])})'
+    elif 'records' in body:
+        ri, lg = body['records']
+        v = ('(VList [' + (cspec(ri) if ri is not None else 'VNone') + '; ' +
+             ('VNone' if lg is None else '(VList ' + clist([f'(VStr {cstr(l)})' for l in lg]) + ')') + '])')
     elif 'flags' in body:
         v = '(VList ' + clist([f'(VList [VStr {cstr(n)}; VBool {cbool(f)}; VBool {cbool(h)}])' for n, f, h in body['flags']]) + ')'
     else:
@@ -52,6 +56,8 @@ def cop(op):
         return f'(OHasData {cnat(op["chain"])} {cstr(op["name"])})'
     if k == 'flags':
         return f'(OFlags {cnat(op["chain"])})'
+    if k == 'records':
+        return f'(OInfo {cnat(op["chain"])} {cstr(op["name"])})'
     if k == 'restart':
         return 'ORestart'
     if k == 'fail':
@@ -107,6 +113,8 @@ def gen_history(rng, case, max_ops=14, mix='all'):
         elif mix == 'multi' and r < 0.22:
             ops.append({'op': 'force_multi', 'multi': rng.randrange(4), 'picks': [rng.randrange(64) for _ in range(rng.choice([1, 2]))],
                         'recompute': (not failing) and rng.random() < 0.4, 'delete': rng.random() < 0.4})
+        elif mix == 'records' and r < 0.3:
+            ops.append({'op': 'records', 'chain': rng.randrange(nchains), 'pick': rng.randrange(64)})
         elif r < 0.6 or (mix == 'plain' and r < 0.8):
             ops.append({'op': 'value', 'chain': rng.randrange(nchains), 'pick': rng.randrange(64)})
         elif r < 0.64 or (mix == 'plain' and r < 0.86):
